@@ -21,6 +21,10 @@ import BlocV.DrvC18
 import BlocV.DrvC19
 -- END C19
 
+-- BEGIN C16 C17
+import BlocV.DrvC1617
+-- END C16 C17
+
 open BlocV BlocV.Proto
 
 def specIRes : Spec.IRes → String
@@ -77,6 +81,9 @@ def handleTok (hex reader : String) : String :=
 -- END C13
 
 def handle (words : List String) : String :=
+  -- BEGIN C16 C17
+  if let some r := DrvC1617.handle words then r else
+  -- END C16 C17
   -- BEGIN C19
   if let some r := DrvC19.handle words then r else
   -- END C19
